@@ -31,13 +31,14 @@ import (
 )
 
 type Tables struct {
-	Tabs     map[string][]string `json:"tabs"` // token tables: gen, cookie, byte
-	Hosts    []string `json:"hosts"`
-	Schemes  []string `json:"schemes"`
-	Expiries []string `json:"expiries"`
-	MaxAges  []int    `json:"maxages"`
-	Domains  []string `json:"domains"`
-	CPaths   []string `json:"cpaths"`
+	Tabs      map[string][]string `json:"tabs"` // token tables: gen, cookie, byte
+	Hosts     []string            `json:"hosts"`
+	ParseHost string              `json:"parsehost"`
+	Schemes   []string            `json:"schemes"`
+	Expiries  []string            `json:"expiries"`
+	MaxAges   []int               `json:"maxages"`
+	Domains   []string            `json:"domains"`
+	CPaths    []string            `json:"cpaths"`
 }
 
 type Block struct {
@@ -112,6 +113,8 @@ func nv(mode string) int {
 	switch mode {
 	case "uri":
 		return len(tab.Hosts) * len(tab.Schemes) * 3
+	case "args":
+		return 4
 	case "cookie":
 		return 2 * 2 * 2 * 5 * len(tab.Expiries) * len(tab.MaxAges) * len(tab.Domains) * len(tab.CPaths)
 	}
@@ -128,6 +131,11 @@ func hashSeq(h int, s []int) int {
 }
 
 func varOf(mode string, w, c []int) int { return hashSeq(hashSeq(7, w), c)%nv(mode) + 1 }
+
+// aux: Codec!Aux -- two more bits derived from the whole input: api (string / []byte setters), pm (Parse host argument)
+func aux(in *In) int   { return hashSeq(hashSeq(hashSeq(11, in.W), in.C), []int{in.V}) }
+func apiOf(in *In) int { return aux(in) % 2 }
+func pmOf(in *In) int  { return (aux(in) / 2) % 2 }
 
 // field j (1-based) of the input as bytes
 func field(tabName string, in *In, j int) []byte {
@@ -303,12 +311,36 @@ func netURL(s []byte) vtrace.Rec {
 func (o *objs) args(b *Block, in *In) vtrace.Rec {
 	var enc []byte
 	list := [][2]string{}
+	passed := [][2]string{}
+	api := 0
+	pre := ""
 	if b.Mode == "query" {
 		enc = field(b.Tab, in, 1)
 	} else {
-		o.a.Reset()
+		api = in.V
+		type kv struct{ k, v []byte }
+		var kvs []kv
 		for i := 1; i+1 <= b.NC+1; i += 2 {
-			o.a.Add(string(field(b.Tab, in, i)), string(field(b.Tab, in, i+1)))
+			kvs = append(kvs, kv{field(b.Tab, in, i), field(b.Tab, in, i+1)})
+			passed = append(passed, [2]string{esc(kvs[len(kvs)-1].k), esc(kvs[len(kvs)-1].v)})
+		}
+		o.a.Reset()
+		if api == 3 || api == 4 {
+			// the keys alone, as a query string without '=': hertz' own encoding of the keys ('=' is always escaped
+			// by it, so dropping every '=' of "k1=&k2=" leaves "k1&k2"); parsed into the SAME object first
+			o.a2.Reset()
+			for _, p := range kvs {
+				o.a2.Add(string(p.k), "")
+			}
+			pre = strings.ReplaceAll(string(o.a2.QueryString()), "=", "")
+			o.a.ParseBytes([]byte(pre))
+		}
+		for _, p := range kvs {
+			if api == 1 || api == 4 {
+				o.a.Add(string(p.k), string(p.v))
+			} else {
+				o.a.Set(string(p.k), string(p.v))
+			}
 		}
 		list = pairs(&o.a)
 		enc = append([]byte(nil), o.a.QueryString()...)
@@ -317,7 +349,7 @@ func (o *objs) args(b *Block, in *In) vtrace.Rec {
 	parsed := pairs(&o.a2)
 	reenc := append([]byte(nil), o.a2.QueryString()...)
 	o.a.ParseBytes(reenc)
-	return vtrace.Rec{"in": in, "list": list, "enc": esc(enc), "parsed": parsed, "neturl": netURL(enc),
+	return vtrace.Rec{"in": in, "api": api, "pairs": passed, "pre": esc([]byte(pre)), "list": list, "enc": esc(enc), "parsed": parsed, "neturl": netURL(enc),
 		"reenc": esc(reenc), "reparsed": pairs(&o.a)}
 }
 
@@ -333,6 +365,7 @@ func (o *objs) uri(b *Block, in *In) vtrace.Rec {
 	host := tab.Hosts[x%len(tab.Hosts)]
 	scheme := tab.Schemes[(x/len(tab.Hosts))%len(tab.Schemes)]
 	qmode := x / (len(tab.Hosts) * len(tab.Schemes))
+	api, pm := apiOf(in), pmOf(in)
 	path, key, value, frag := field(b.Tab, in, 1), field(b.Tab, in, 2), field(b.Tab, in, 3), field(b.Tab, in, 4)
 	fragCtl := false
 	for _, c := range frag {
@@ -342,25 +375,43 @@ func (o *objs) uri(b *Block, in *In) vtrace.Rec {
 	}
 	u := &o.u
 	u.Reset()
-	u.SetScheme(scheme)
-	u.SetHost(host)
-	u.SetPath(string(path))
+	if api == 0 {
+		u.SetScheme(scheme)
+		u.SetHost(host)
+		u.SetPath(string(path))
+	} else {
+		u.SetSchemeBytes([]byte(scheme))
+		u.SetHostBytes([]byte(host))
+		u.SetPathBytes(path)
+	}
 	if qmode == 0 {
 		o.a.Reset()
 		o.a.Add(string(key), string(value))
-		u.SetQueryString(string(o.a.QueryString()))
+		if api == 0 {
+			u.SetQueryString(string(o.a.QueryString()))
+		} else {
+			u.SetQueryStringBytes(o.a.QueryString())
+		}
 	} else if qmode == 1 {
 		u.QueryArgs().Add(string(key), string(value))
 	} // qmode 2: no query
-	u.SetHash(string(frag))
+	if api == 0 {
+		u.SetHash(string(frag))
+	} else {
+		u.SetHashBytes(frag)
+	}
+	var phost []byte
+	if pm == 1 {
+		phost = []byte(tab.ParseHost)
+	}
 	str := u.String() // before any getter that could change the object
 	parts := uriParts(u)
-	o.u2.Parse(nil, []byte(str))
+	o.u2.Parse(phost, []byte(str))
 	restr := o.u2.String()
 	re := uriParts(&o.u2)
 	return vtrace.Rec{"in": in, "fragCtl": fragCtl,
 		"set": vtrace.Rec{"scheme": scheme, "host": host, "path": esc(path), "key": esc(key), "value": esc(value),
-			"frag": esc(frag), "qmode": qmode},
+			"frag": esc(frag), "qmode": qmode, "api": api, "phost": string(phost)},
 		"parts": parts, "str": esc([]byte(str)), "reparsed": re, "restr": esc([]byte(restr))}
 }
 
@@ -379,6 +430,7 @@ func (o *objs) cookie(b *Block, in *In) vtrace.Rec {
 	x := in.V - 1
 	httpOnly, secure, partitioned := x%2 == 1, (x/2)%2 == 1, (x/4)%2 == 1
 	sameSite := (x / 8) % 5
+	api := apiOf(in)
 	x /= 40
 	exp := tab.Expiries[x%len(tab.Expiries)]
 	x /= len(tab.Expiries)
@@ -391,8 +443,13 @@ func (o *objs) cookie(b *Block, in *In) vtrace.Rec {
 
 	c := &o.c
 	c.Reset()
-	c.SetKeyBytes(key)
-	c.SetValueBytes(value)
+	if api == 0 {
+		c.SetKey(string(key))
+		c.SetValue(string(value))
+	} else {
+		c.SetKeyBytes(key)
+		c.SetValueBytes(value)
+	}
 	switch exp {
 	case "none":
 		c.SetExpire(protocol.CookieExpireUnlimited)
@@ -406,7 +463,11 @@ func (o *objs) cookie(b *Block, in *In) vtrace.Rec {
 	c.SetMaxAge(maxAge)
 	c.SetDomain(domain)
 	if path != "<unset>" {
-		c.SetPath(path)
+		if api == 0 {
+			c.SetPath(path)
+		} else {
+			c.SetPathBytes([]byte(path))
+		}
 	}
 	c.SetHTTPOnly(httpOnly)
 	c.SetSecure(secure)
@@ -417,7 +478,7 @@ func (o *objs) cookie(b *Block, in *In) vtrace.Rec {
 	err := o.c2.Parse(str)
 	return vtrace.Rec{"in": in,
 		"set": vtrace.Rec{"key": esc(key), "value": esc(value), "httpOnly": httpOnly, "secure": secure,
-			"partitioned": partitioned, "sameSite": sameSite, "exp": exp, "maxAge": maxAge, "domain": domain, "path": path},
+			"partitioned": partitioned, "sameSite": sameSite, "exp": exp, "maxAge": maxAge, "domain": domain, "path": path, "api": api},
 		"rec": rec, "str": esc([]byte(str)), "ok": err == nil, "parsed": cookieRec(&o.c2)}
 }
 
